@@ -26,6 +26,9 @@ class FoxOptimization(OptimizationAbstract):
     def set_config_parameters(self, parameters: dict[str, Any]):
         self._config = FoxOptimizationConfig(**parameters)
 
+    def before_initialization(self):
+        self.__mint = np.inf
+
     def optimization_step(self):
         def evolve(fox: Fox) -> Fox:
             if np.random.random() >= 0.5:
